@@ -263,8 +263,8 @@ def sumSpec (col : String) : String × GroupSpec :=
 /-- all aggregation specs, as built inside `groupAggFns` -/
 def allSpecs (fns : List Fn) (targets dataCols : List String) (userSpecs : List (String × GroupSpec)) :
     List (String × GroupSpec) :=
-  ((((fns.flatMap (·.args) ++ targets).filter (autoOk fns dataCols)).map sumSpec) ++ userSpecs).foldl
-    specUpd []
+  ((((fns.flatMap (·.args) ++ targets ++ userSpecs.filterMap (fun (_, s) => s.source)).filter
+    (autoOk fns dataCols)).map sumSpec) ++ userSpecs).foldl specUpd []
 
 theorem groupAggFns_eq (fns : List Fn) (targets dataCols : List String)
     (userSpecs : List (String × GroupSpec)) :
@@ -349,11 +349,12 @@ theorem mem_foldl_specUpd (l d : List (String × GroupSpec)) (n : String) (s : G
         simp [hn, this]
 
 /-- the spec registered under the name `n`: the user's (last) one, else the automatic sum if `n`
-is an argument of a function or a target and passes the filter -/
+is an argument of a function, a target or the source column of a user spec and passes the filter -/
 def specOfName (fns : List Fn) (targets dataCols : List String) (userSpecs : List (String × GroupSpec))
     (n : String) : Option GroupSpec :=
   (lookupLast userSpecs n).or
-    (if n ∈ (fns.flatMap (·.args) ++ targets).filter (autoOk fns dataCols) then some (sumSpec n).2 else none)
+    (if n ∈ (fns.flatMap (·.args) ++ targets ++ userSpecs.filterMap (fun (_, s) => s.source)).filter
+        (autoOk fns dataCols) then some (sumSpec n).2 else none)
 
 theorem mem_allSpecs (fns : List Fn) (targets dataCols : List String)
     (userSpecs : List (String × GroupSpec)) (n : String) (s : GroupSpec) :
@@ -450,12 +451,13 @@ theorem specOfName_agree {fns : List Fn} {T T' dataCols : List String}
     · cases h
 
 /-- … and a name registered for `T` but not for `T'` is an automatic sum requested as a target of
-`T` which is no argument of any function -/
+`T` which is no argument of any function and no source column of a user spec -/
 theorem specOfName_only {fns : List Fn} {T T' dataCols : List String}
     {userSpecs : List (String × GroupSpec)} {n : String} {s : GroupSpec}
     (h : specOfName fns T dataCols userSpecs n = some s)
     (h' : specOfName fns T' dataCols userSpecs n = none) :
-    n ∈ T ∧ n ∉ fns.flatMap (·.args) ∧ autoOk fns dataCols n = true := by
+    n ∈ T ∧ n ∉ fns.flatMap (·.args) ∧ n ∉ userSpecs.filterMap (fun (_, s) => s.source) ∧
+      autoOk fns dataCols n = true ∧ n ∉ T' := by
   unfold specOfName at h h'
   cases hu : lookupLast userSpecs n with
   | some s0 => rw [hu] at h'; simp at h'
@@ -467,12 +469,15 @@ theorem specOfName_only {fns : List Fn} {T T' dataCols : List String}
       split at h'
       · cases h'
       · rename_i hm'
-        rw [List.mem_filter, List.mem_append] at hm hm'
-        have hargs : n ∉ fns.flatMap (·.args) := fun ha => hm' ⟨Or.inl ha, hm.2⟩
-        refine ⟨?_, hargs, hm.2⟩
-        rcases hm.1 with ha | ht
+        rw [List.mem_filter, List.mem_append, List.mem_append] at hm hm'
+        have hargs : n ∉ fns.flatMap (·.args) := fun ha => hm' ⟨Or.inl (Or.inl ha), hm.2⟩
+        have hsrc : n ∉ userSpecs.filterMap (fun (_, s) => s.source) := fun ha => hm' ⟨Or.inr ha, hm.2⟩
+        have hT' : n ∉ T' := fun ha => hm' ⟨Or.inl (Or.inr ha), hm.2⟩
+        refine ⟨?_, hargs, hsrc, hm.2, hT'⟩
+        rcases hm.1 with (ha | ht) | hs
         · exact absurd ha hargs
         · exact ht
+        · exact absurd hs hsrc
     · cases h
 
 theorem buildFunctions_ok {ruleFns : List Fn} {gs : List (String × GroupSpec)}
@@ -509,17 +514,20 @@ theorem buildFunctions_nodup {ruleFns : List Fn} {gs : List (String × GroupSpec
 
 /-- Step 3 (both parts). The function sets built for two target lists (all other inputs equal)
 agree on every name they both define; a name defined for `T` only is an automatic group sum that
-was requested as a target of `T` and is no argument of a rule / p_id aggregation / time conversion. -/
+was requested as a target of `T` and is neither an argument of a rule / p_id aggregation / time
+conversion nor the source column of an aggregation spec. -/
 theorem buildFunctions_targets {ruleFns : List Fn} {gs : List (String × GroupSpec)}
     {ps : List (String × PidSpec)} {T T' dataCols : List String} {all all' : List Fn}
     (h : buildFunctions ruleFns gs ps T dataCols = .ok all)
     (h' : buildFunctions ruleFns gs ps T' dataCols = .ok all') (n : String) (f : Fn)
     (hf : findFn? all n = some f) :
     (∀ f', findFn? all' n = some f' → f = f') ∧
-    (findFn? all' n = none → n ∈ T ∧
+    (findFn? all' n = none → n ∈ T ∧ n ∉ T' ∧ n ∉ gs.filterMap (fun (_, s) => s.source) ∧
       ∃ pid, pidFns (merge [] ruleFns) dataCols ps = .ok pid ∧
         n ∉ (merge (merge (timeConvFns (merge (merge [] ruleFns) pid) dataCols) (merge [] ruleFns)) pid).flatMap
-          (·.args)) := by
+          (·.args) ∧
+        autoOk (merge (merge (timeConvFns (merge (merge [] ruleFns) pid) dataCols) (merge [] ruleFns)) pid)
+          dataCols n = true) := by
   obtain ⟨pid, grp, hpid, hgrp, rfl⟩ := buildFunctions_ok h
   obtain ⟨pid', grp', hpid', hgrp', rfl⟩ := buildFunctions_ok h'
   rw [hpid] at hpid'
@@ -597,7 +605,7 @@ theorem buildFunctions_targets {ruleFns : List Fn} {gs : List (String × GroupSp
         have hb := hbase s (Or.inl hs) hu
         rw [hb]
         simp only [reduceCtorEq, false_imp_iff, implies_true, true_and, forall_const]
-        exact ⟨honly.1, pid, hpid, htc ▸ honly.2.1⟩
+        exact ⟨honly.1, honly.2.2.2.2, honly.2.2.1, pid, hpid, htc ▸ honly.2.1, htc ▸ honly.2.2.2.1⟩
     | none =>
       rw [hA] at hf
       simp only [Option.none_or] at hf
